@@ -25,12 +25,12 @@ for d in sorted(glob.glob(S + '/C*')):
     pid = os.path.basename(d)
     am = json.load(open(d + '/agent_meta.json')) if os.path.exists(d + '/agent_meta.json') else {}
     cl = open(d + '/confirm.log').read() if os.path.exists(d + '/confirm.log') else ''
-    verdict = [l for l in cl.splitlines() if l.startswith(pid + ' demo_')]
+    verdict = [l for l in cl.splitlines() if l.startswith(pid + ' demo_') or l.startswith(pid[:3] + ' demo_')]
     summ = [l.strip() for l in cl.splitlines() if 'Summary [' in l or l.startswith('baseline ') or 'REGRESSION' in l or 'recheck_all_pass' in l or ' -> ' in l]
     caught = [l.strip() for l in open(d + '/caught.txt') if not l.startswith('#')] if os.path.exists(d + '/caught.txt') else []
     rebased = os.path.exists(d + '/patch.pinned.diff')
     meta = {
-        "property": pid,
+        "property": pid[:3],
         "change": am.get("summary"),
         "needs_to_manifest": am.get("needs_to_manifest"),
         "files": am.get("files_changed"),
